@@ -124,6 +124,7 @@ let hist fuel (kbx : Sexp.t) (ops : Sexp.t list) : string * Sexp.t * Sexp.t =
                 w := { !w with stop_after = Some (n_of_string n) }; A "ok"
               | L [A "stop-now"] -> w := { !w with stop_flag = true }; A "ok"
               | L [A "varid"] -> L [A "varid"; varid ()]
+              | L [A "set-id"; A n] -> w := { !w with next_id = n_of_string n }; A "ok"
               | x -> bad ("hist op: " ^ Sexp.to_string x))
            with Stop s -> flush_out (); obs := s :: !obs; raise Exit in
          (match op with
